@@ -380,7 +380,7 @@ impl Property for C13 {
     fn runs(&self, tier: Tier) -> u64 {
         match tier {
             Tier::Quick => 60_000,
-            Tier::Thorough => 1_500_000,
+            Tier::Thorough => 1_000_000,
         }
     }
     fn gen(&self, run_seed: u64, _tier: Tier) -> Value {
